@@ -116,6 +116,10 @@ Definition check_wiring (c : wcase) : list string :=
     match build_package_lists repos (w_archs c) ctx (w_world c), w_lists c with
     | None, None => []
     | Some m, Some o =>
+        (* the validator on the lists of the CONCURRENT per-architecture resolutions as well *)
+        flat_map (fun al =>
+          let others := List.map (fun b => flatten (repos b)) (List.filter (fun b => negb (String.eqb b (fst al))) ctx) in
+          foreign_tags (flatten (repos (fst al))) others (snd al)) o ++
         tag_if (negb (Nat.eqb (List.length m) (List.length o) &&
                       forallb (fun al => match alookup (fst al) o with
                                          | Some l => list_eqb nv_eqb (snd al) l
@@ -204,3 +208,36 @@ Fixpoint check_calls (pool : list nindex) (earlier : list hcall) (cache : dq_cac
   end.
 
 Definition check_history (c : hcase) : list string := nodup string_dec (check_calls (h_pool c) [] [] (h_calls c)).
+
+(* ==== concurrent per-architecture resolutions (conc stage) ==============================
+   What MultiArch.BuildPackageLists / BuildLayers do: one resolution per
+   architecture, all at the same time, all asking the disqualification cache for
+   the same map.  Every round starts from a cold cache with fresh index objects;
+   the resolution of [cr_first] is started first and held inside
+   disqualifyDifference (an index whose Packages() stalls) while the other
+   architectures' calls arrive; then it is released.  Verdict, every round, every
+   architecture: the list is the one the model computes from an empty cache, and
+   foreign_check passes on the implementation's list. *)
+Record cround := { cr_first : string; cr_obs : list (string * option (list (string * string))) }.
+Record ccase := { cc_archs : list (string * list nindex); cc_world : list (string * list string); cc_rounds : list cround }.
+Definition CR := Build_cround.
+
+Definition check_conc (c : ccase) : list string :=
+  let aa : arch_map := cc_archs c in
+  let expected := List.map (fun e =>
+    let w := match alookup (fst e) (cc_world c) with Some w => w | None => [] end in
+    (fst e, observe_world (snd e) (snd (get_packages [] (snd e) w aa)))) aa in
+  nodup string_dec (flat_map (fun r =>
+    tag_if (negb (set_eqb String.eqb (List.map fst aa) (List.map fst (cr_obs r)))) "mismatch:conc-architectures" ++
+    flat_map (fun ao =>
+      let a := fst ao in
+      let own := flatten (match alookup a aa with Some ixs => ixs | None => [] end) in
+      let others := List.map (fun e => flatten (snd e)) (List.filter (fun e => negb (String.eqb (fst e) a)) aa) in
+      match alookup a expected with
+      | Some m => List.map (fun t => String.append t "/concurrent") (compare_lists m (snd ao) (has_iif_pkgs own))
+      | None => ["mismatch:conc-architectures"]
+      end ++
+      match snd ao with
+      | None => []
+      | Some l => if Nat.leb 2 (List.length aa) then foreign_tags own others l else []
+      end) (cr_obs r)) (cc_rounds c)).
